@@ -17,6 +17,7 @@ Record RelM (s : state) (ms : mstate) : Prop := {
   r_started : forall m, mem m (m_started ms) = st_started (mp s m);
   r_ended : forall m, mem m (m_ended ms) = st_ended (mp s m);
   r_settled : forall m, mem m (m_settled ms) = st_settled (mp s m);
+  r_pub : forall h, mem h (m_pubclosed ms) = Nat.leb 1 (pub_closes s h);
   r_nil : m_nil ms = true -> close_res s = Some RNil;
   r_dirty : m_rundirty ms = true -> close_res s = Some RErr;
   r_runret : m_runret ms = true -> run s = RDone
@@ -59,6 +60,30 @@ Proof.
   destruct (mp s m); simpl in *; discriminate.
 Qed.
 
+Lemma mem_cons_cnt (g : hid -> nat) l h :
+  (forall x, mem x l = Nat.leb 1 (g x)) -> forall x, mem x (h :: l) = Nat.leb 1 (upd g h (S (g h)) x).
+Proof.
+  intros H x. unfold mem in *. simpl. destruct (Nat.eq_dec x h) as [->|Hne].
+  - rewrite Nat.eqb_refl, upd_same. reflexivity.
+  - rewrite upd_other by assumption. apply Nat.eqb_neq in Hne. rewrite Hne. simpl. apply H.
+Qed.
+
+Lemma all_pubs_closed s : Inv s -> quiescent s -> forall h, h < nh s -> 1 <= pub_closes s h.
+Proof.
+  intros I [_ Hq] h Hlt. pose proof (a_base s (i_a s I)) as IA.
+  apply (a_pub s IA h). specialize (Hq h).
+  destruct (lp s h) eqn:E; simpl in *; try discriminate; [|reflexivity].
+  exfalso. apply (a_hb2 s IA h); assumption.
+Qed.
+
+Lemma pubs_closed_b s ms hp : Inv s -> RelM s ms -> quiescent s ->
+  forallb (fun h : hid => negb (hp h) || mem h (m_pubclosed ms)) (seq 0 (nh s)) = true.
+Proof.
+  intros I R Hq. apply forallb_forall. intros h Hin. apply in_seq in Hin. rewrite (r_pub s ms R).
+  assert (1 <= pub_closes s h) as Hp by (apply all_pubs_closed; [assumption | assumption | lia]).
+  apply Nat.leb_le in Hp. rewrite Hp. apply orb_true_r.
+Qed.
+
 Definition accepted_step (nh : nat) (hp : hid -> bool) (s : state) (l : label) (s' : state) (ms : mstate) : Prop :=
   (emit s l = [] /\ RelM s' ms) \/
   (exists e ms', emit s l = [e] /\ mon_step nh hp ms e = (ms', []) /\ RelM s' ms').
@@ -81,13 +106,13 @@ Ltac set_clause Rx :=
         | apply Rx ].
 
 Ltac relm_same Rs Re Rt Rn Rd Rr :=
-  constructor; simpl; intros; first [set_clause Rs | set_clause Re | set_clause Rt | solve [auto] | solve [rew_pcs; auto] | congruence].
+  constructor; simpl; intros; first [set_clause Rs | set_clause Re | set_clause Rt | match goal with Hp : context [m_pubclosed] |- mem _ _ = _ => first [apply (mem_cons_cnt _ _ _ Hp) | apply Hp] end | solve [auto] | solve [rew_pcs; auto] | congruence].
 
 Lemma sim_step nh hp s l s' ms :
-  Inv s -> fix5 s = true -> fix12 s = true -> step s l = Some s' -> RelM s ms -> accepted_step nh hp s l s' ms.
+  Inv s -> fix5 s = true -> fix12 s = true -> nh = Close.nh s -> step s l = Some s' -> RelM s ms -> accepted_step nh hp s l s' ms.
 Proof.
-  intros I F5 F12 H R. unfold accepted_step, emit. rewrite H.
-  pose proof R as [Rs Re Rt Rn Rd Rr].
+  intros I F5 F12 Hnh H R. unfold accepted_step, emit. rewrite H.
+  pose proof R as [Rs Re Rt Rp Rn Rd Rr].
   pose proof (i_c s I) as IC. pose proof (a_base s (i_a s I)) as IA. pose proof (a_pump2 s (i_a s I)) as Apump2.
   assert (Hnew : mp s (nextm s) = MNone) by (apply (a_mb s IA); lia).
   assert (Hnilq : m_nil ms = true -> quiescent s) by (intros Hn; apply quiescent_of_nil_result; auto).
@@ -102,7 +127,7 @@ Proof.
   all: try solve [left; split; [reflexivity|];
          match goal with Hc : cp _ ?c = CWait |- _ => destruct (c_wait s IC c Hc) as (_ & _ & Hnone) end;
          constructor; simpl; intros;
-         first [apply Rs | apply Re | apply Rt | solve [auto]
+         first [apply Rs | apply Re | apply Rt | apply Rp | solve [auto]
                | match goal with Hx : m_nil _ = true |- _ => rewrite (Rn Hx) in Hnone; discriminate end
                | match goal with Hx : m_rundirty _ = true |- _ => rewrite (Rd Hx) in Hnone; discriminate end ]].
   (* events that touch none of the related parts *)
@@ -116,26 +141,30 @@ Proof.
       assert (Hq : quiescent s) by (apply quiescent_of_nil_result; assumption).
       do 2 eexists. split; [reflexivity|]. split.
       * simpl. rewrite (not_busy_of_quiescent s ms R Hq), (no_unstarted_settled s ms R). simpl.
+        rewrite (pubs_closed_b s ms hp I R Hq).
         destruct (m_rundirty ms) eqn:Ed; [rewrite (Rd eq_refl) in Hres; discriminate | reflexivity].
-      * constructor; simpl; intros; first [apply Rs | apply Re | apply Rt | solve [auto] | discriminate].
+      * constructor; simpl; intros; first [apply Rs | apply Re | apply Rt | apply Rp | solve [auto] | discriminate].
     + do 2 eexists. split; [reflexivity|]. split; [reflexivity|].
-      constructor; simpl; intros; first [apply Rs | apply Re | apply Rt | solve [auto]].
-  - left; split; [reflexivity|]. constructor; simpl; intros; first [apply Rs | apply Re | apply Rt | solve [auto] | discriminate | idtac].
+      constructor; simpl; intros; first [apply Rs | apply Re | apply Rt | apply Rp | solve [auto]].
+  - left; split; [reflexivity|]. constructor; simpl; intros; first [apply Rs | apply Re | apply Rt | apply Rp | solve [auto] | discriminate | idtac].
     specialize (Rr H). congruence.
-  - left; split; [reflexivity|]. constructor; simpl; intros; first [apply Rs | apply Re | apply Rt | solve [auto] | discriminate | idtac].
+  - left; split; [reflexivity|]. constructor; simpl; intros; first [apply Rs | apply Re | apply Rt | apply Rp | solve [auto] | discriminate | idtac].
     specialize (Rr H). congruence.
   - (* Run returns: closedCh is closed, so the result is decided *)
     right. do 2 eexists. split; [reflexivity|]. split; [reflexivity|].
-    constructor; simpl; intros; first [apply Rs | apply Re | apply Rt | solve [auto] | discriminate | idtac].
+    constructor; simpl; intros; first [apply Rs | apply Re | apply Rt | apply Rp | solve [auto] | discriminate | idtac].
     destruct (res_cases s I F5 Heqb) as [He|[Hn Hq]]; [assumption|].
     apply orb_true_iff in H. destruct H as [Hd|Hb]; [auto|].
     rewrite (not_busy_of_quiescent s ms R Hq) in Hb. discriminate.
+  - (* a publisher's Close() returns *)
+    right. do 2 eexists. split; [reflexivity|]. split; [reflexivity|].
+    constructor; simpl; intros; first [apply Rs | apply Re | apply Rt | apply (mem_cons_cnt _ _ _ Rp) | solve [auto]].
   - (* a handler starts: no Close has returned nil *)
     right. do 2 eexists. split; [reflexivity|].
     assert (Hnn : m_nil ms = false).
     { destruct (m_nil ms) eqn:En; [|reflexivity]. exfalso. apply (idle_contra s m (Hnilq eq_refl)). rewrite Heqm0. reflexivity. }
     split; [simpl; rewrite Hnn; reflexivity|].
-    constructor; simpl; intros; first [set_clause Rs | set_clause Re | set_clause Rt | solve [auto] | discriminate | idtac].
+    constructor; simpl; intros; first [set_clause Rs | set_clause Re | set_clause Rt | apply Rp | solve [auto] | discriminate | idtac].
     apply orb_true_iff in H. destruct H as [Hd|Hrr]; [auto|].
     pose proof (c_run2 s IC (Rr Hrr)) as Hcl.
     destruct (res_cases s I F5 Hcl) as [He|[Hn Hq]]; [assumption|].
@@ -145,25 +174,25 @@ Proof.
     assert (Hnn : m_nil ms = false).
     { destruct (m_nil ms) eqn:En; [|reflexivity]. exfalso. apply (idle_contra s m (Hnilq eq_refl)). rewrite Heqm0. reflexivity. }
     split; [simpl; rewrite Hnn; reflexivity|].
-    constructor; simpl; intros; first [set_clause Rs | set_clause Re | set_clause Rt | solve [auto] | discriminate].
+    constructor; simpl; intros; first [set_clause Rs | set_clause Re | set_clause Rt | apply Rp | solve [auto] | discriminate].
 Qed.
 
 
 Lemma mon_accepts_from nh hp ls : forall s ms i,
-  Inv s -> fix5 s = true -> fix12 s = true -> RelM s ms -> mon_run_from nh hp ms i (trace s ls) = [].
+  Inv s -> fix5 s = true -> fix12 s = true -> nh = Close.nh s -> RelM s ms -> mon_run_from nh hp ms i (trace s ls) = [].
 Proof.
-  induction ls as [|l ls IH]; intros s ms i I F5 F12 R; simpl; [reflexivity|].
+  induction ls as [|l ls IH]; intros s ms i I F5 F12 Hnh R; simpl; [reflexivity|].
   destruct (step s l) as [s0|] eqn:E; [|apply IH; assumption].
-  destruct (flags_step s l s0 E) as (G5 & _ & G12 & _).
+  destruct (flags_step s l s0 E) as (G5 & _ & G12 & Gn).
   pose proof (Inv_step s l s0 I E) as I0.
-  destruct (sim_step nh hp s l s0 ms I F5 F12 E R) as [[He R0]|(e & ms' & He & Hm & R0)]; rewrite He; simpl.
+  destruct (sim_step nh hp s l s0 ms I F5 F12 Hnh E R) as [[He R0]|(e & ms' & He & Hm & R0)]; rewrite He; simpl.
   - apply IH; congruence.
   - rewrite Hm. simpl. apply IH; congruence.
 Qed.
 
 (** every API trace of the repaired model is accepted - no rejection of any kind *)
-Theorem mon_accepts_model nh hp n hon f6 ls :
-  mon_run nh hp (trace (init n hon true f6 true) ls) = [].
+Theorem mon_accepts_model hp n hon f6 ls :
+  mon_run n hp (trace (init n hon true f6 true) ls) = [].
 Proof.
-  unfold mon_run. apply mon_accepts_from; [apply Inv_init | reflexivity | reflexivity | apply RelM_init].
+  unfold mon_run. apply mon_accepts_from; [apply Inv_init | reflexivity | reflexivity | reflexivity | apply RelM_init].
 Qed.
